@@ -88,4 +88,19 @@ PROPS = {
         "assumptions": ["user callbacks are scripts (handler programs, parser table, validator/middleware/hook outcomes); transport writes succeed while the connection is open; no concurrent Close"],
         "trusted": ['pgx v5.4.3 pgtype.Map.Encode modelled by coq/Wire/Codec.v for bool/int2/4/8/text/varchar/bytea and the three NULL kinds (compared on every row of every case)'],
     },
+    "C02": {
+        "projection": "raw server bytes: (a) every write of the real buffer.Writer under arbitrary call sequences, (b) the whole output of generated sessions parsed by the strict grammar",
+        "rule": "(a) 3000 (quick) / 60000 (thorough) Writer call sequences mixing completed and abandoned messages, Reset between messages, 10% on a broken transport; (b) 1500 / 30000 random sessions (simple+extended, rows failing at a column, wrong arity, decorated errors, inadmissible format codes) and wide tables (0..300 columns); non-trivial = >= 3 calls / client sent more than the startup packet; distinct = by call sequence / configuration+stream",
+        "exhaustive": False,
+        "assumptions": ["handler-supplied protocol strings (column names, tags, error texts, parameter keys/values) are NUL-free and counts fit 16 bits: a Go string cannot express the restriction; strings the library derives from client bytes are in scope without hypothesis", "Writer.End without a preceding Start is outside the library's call patterns (the model reports it as a panic)"],
+        "trusted": ["bytes.Buffer / io.Writer semantics as written into coq/Wire/WriterModel.v (compared on every call sequence)"],
+    },
+    "C15": {
+        "projection": "per-connection log of N connections served by ONE server, each compared with the model of that connection alone",
+        "race": True,
+        "rule": "60 (quick) / 1500 (thorough) rounds of 2..8 (every tenth: 16) connections with the same statement/portal names, different users and row types; half of the rounds deliver the messages lock-step in a random interleaving, half let all clients run freely in parallel; the harness is built with -race and any report fails the check; non-trivial/distinct as for sessions",
+        "exhaustive": False,
+        "assumptions": ["the Go race detector's happens-before analysis on the generated traffic stands for 'no unsynchronised access'; the Go memory model is not formalised"],
+        "trusted": ["Go race detector (go build -race)"],
+    },
 }
